@@ -278,9 +278,15 @@ impl SaveDirState {
                     dir = args.next().map(|s| s.as_str()).unwrap_or_default();
                 }
 
-                let dir = std::path::absolute(dir)?;
                 out.write_all(b"-L")?;
-                write_copied_file_arg(out, &dir, is_rsp_file)?;
+                if dir.starts_with('=') || dir.starts_with("$SYSROOT") {
+                    // The directory is relative to the sysroot, which gets rewritten where it's
+                    // specified.
+                    write_escaped(out, dir.as_bytes(), is_rsp_file)?;
+                } else {
+                    let dir = std::path::absolute(dir)?;
+                    write_copied_file_arg(out, &dir, is_rsp_file)?;
+                }
             } else {
                 // If the arg contains '=', then check to see if what's after the '=' is a filename
                 // that exists. If it does, use that.
